@@ -42,3 +42,21 @@ Theorem C15_exact_under_concurrency :
     hits (fold_left record ops (fresh n)) + misses (fold_left record ops (fresh n)) = N.of_nat (length ops).
 Proof. exact stats_exact_under_concurrency. Qed.
 Print Assumptions C15_exact_under_concurrency.
+
+(* under concurrency, at the granularity of the lookup's own phases (LookupConc: phase 1 reads,
+   phase 2 re-checks and purges, a hit's recency section comes later; the environment changes the
+   store arbitrarily in between; expiry is any function of time and birth): every lookup is booked
+   exactly once on every path, so at quiescence hits + misses = lookups performed, and in between
+   the counters never lag behind the lookups that have returned *)
+From CL Require Import LookupConc PfLookupConc.
+Theorem C15_every_lookup_booked_once_under_concurrency :
+  forall (expired : N -> N -> bool) n s,
+    lreach expired n s ->
+    (quiescent s -> l_hits s + l_misses s = l_done s)%N /\
+    (l_done s <= l_hits s + l_misses s)%N.
+Proof.
+  intros expired n s H. split.
+  - intro Q. eapply stats_exact_at_quiescence; eassumption.
+  - eapply stats_never_lag; eassumption.
+Qed.
+Print Assumptions C15_every_lookup_booked_once_under_concurrency.
